@@ -35,7 +35,8 @@ Definition exceptions (c : cfg) : list exc :=
 Definition cfg_ok (c : cfg) : bool :=
   match c_rid c with RidLastPlus1 => c_tf_keeps_bank_md c && c_pair_json_id c | _ => false end &&
   match c_dg_upd c with DgUpdKeep => true | _ => false end &&
-  match c_ep_val c with EpValNonneg => true | _ => false end.
+  match c_ep_val c with EpValNonneg => true | _ => false end &&
+  match c_ep_start c with EpStZeroOnly => true | _ => false end.
 
 (* ------------------------------------------------------------------ exports *)
 Definition rebase_epoch (h : Z) (e : epoch) : epoch :=
